@@ -1,4 +1,7 @@
 """C01 Forward grid conversion is the exact Transverse Mercator of the ellipsoid."""
+import numbers
+from fractions import Fraction
+
 from .. import repo, strategies as S, tmcases as T
 from ..core import SubCheck, Fail, Discard, metric, target
 from ..oracles import tm_exact
@@ -17,10 +20,7 @@ def selftest():
 
 
 def _position(case):
-    lat_o = S.angle_obj(case["kind"], case["lat"])
-    lon_o = S.angle_obj(case["kind"], case["lon"])
-    lat = S.obj_dec(lat_o)
-    lon = S.obj_dec(lon_o)
+    lat_o, lon_o, lat, lon = T.geo_args(case)
     T.in_band_or_discard(lat, lon)
     if case["zone"] == 0 and not any(lo <= lon < hi for lo, hi in T.auto_window(case["prj"])):
         raise Discard()     # the notation round trip moved the longitude out of the automatically zoned range
@@ -40,16 +40,25 @@ def check_position(case):
     if case["zone"] == 0:
         if kind == "isg":
             # ISG zones are numbered <AMG zone><sub-zone 1..3>; the statement's rule is the central-meridian one
-            if not (isinstance(zone, int) and 100 <= zone <= 609 and zone % 10 in (1, 2, 3)):
+            if not (isinstance(zone, numbers.Integral) and 100 <= zone <= 609 and zone % 10 in (1, 2, 3)):
                 raise Fail("automatic ISG zone is not a <zone><subzone 1..3> number",
                            observed={"zone": zone, "lon": lon})
             half = 1.0
         else:
-            if not (isinstance(zone, int) and 1 <= zone <= 60):
+            if not (isinstance(zone, numbers.Integral) and 1 <= zone <= 60):
                 raise Fail("automatic zone not in 1..60", expected="1..60", observed={"zone": zone, "lon": lon})
             half = zw / 2.0
         cm = T.cm_of(case["prj"], zone)
-        if not abs(lon - cm) <= half + 1e-9:
+        # decided in exact rational arithmetic on the floats involved where the zone limits are representable numbers (UTM and
+        # projections with whole-degree widths on a half-degree lattice): one unit in the last place beyond the limit is beyond it.
+        # For arbitrary widths / first meridians the limits themselves carry rounding: 1e-12 deg of slack.
+        representable = kind == "isg" or (float(zw).is_integer() and float(cm1 * 2).is_integer())
+        if representable and kind != "isg":
+            off = abs(Fraction(lon) - (Fraction(cm1) + (int(zone) - 1) * Fraction(zw)))
+            bad = off > Fraction(zw) / 2
+        else:
+            bad = not abs(lon - cm) <= half + (1e-9 if kind == "isg" else 1e-12)
+        if bad:
             raise Fail("automatic zone: central meridian is not within half a zone width of the longitude",
                        expected={"|lon-cm|<=": half}, observed={"zone": zone, "cm": cm, "lon": lon})
     else:
